@@ -133,7 +133,7 @@ static uint64_t *c_eval, *c_trans, *c_nontriv, *c_skip_range, *c_skip_biz, *c_me
  * and a later transition that produces the very same 16 bytes for the same
  * target needs no second observation.  Values that disagree are never
  * remembered, so failing cases are always observed and counted one by one. */
-#define MEMO_PAD	1024
+#define MEMO_PAD	3072
 #define MEMO_SZ		(366 + 2 * MEMO_PAD)
 static struct dt_dt_s memo_v[NCAL][MEMO_SZ];
 static uint8_t memo_ok[NCAL][MEMO_SZ];
@@ -236,7 +236,7 @@ do_case(const struct rc_day *p, int c, struct dt_dt_s v, int u, int n, const str
 			bad++;
 		}
 		snprintf(key, sizeof(key), "add cal=%s unit=%s sign=%c obs=%s", cal_name[c], unit_name[u], sign, obs_name[o]);
-		if (!ok[o] && !ex_viol_known(key, p->rd)) {
+		if (!ok[o] && !ex_viol_known(key, (double)trd)) {
 			char text[48], cas[64], cmd[256], dtxt[32], exp[64];
 			cal_text(c, p, text, sizeof(text));
 			snprintf(dtxt, sizeof(dtxt), "%+d%s", n, unit_name[u]);
@@ -251,7 +251,7 @@ do_case(const struct rc_day *p, int c, struct dt_dt_s v, int u, int n, const str
 			} else {
 				snprintf(exp, sizeof(exp), "%04d-%02d-%02d", t->y, t->m, t->d);
 			}
-			ex_viol(key, p->rd, cas, (o == O_DAISY || o == O_INV) ? NULL : cmd,
+			ex_viol(key, (double)trd, cas, (o == O_DAISY || o == O_INV) ? NULL : cmd,
 				"%04d-%02d-%02d given as '%s' (%s) %s: %s observation is '%s', the day %ld steps on is %04d-%02d-%02d = '%s'",
 				p->y, p->m, p->d, text, cal_name[c], dtxt, obs_name[o], got[o], k, t->y, t->m, t->d, exp);
 		}
@@ -481,16 +481,17 @@ main(int argc, char *argv[])
 		ex.thorough ? RANGE_THOROUGH : RANGE_QUICK, nsmall[U_W],
 		ex.thorough ? "+-[401,800] of both units, " : "", ex.thorough ? ", +-{1000,10000,100000,500000}d, +-{1000,10000,100000}w" : "",
 		nlarge[U_D], nlarge[U_W], ex.thorough ? NBIND : NBIND_QUICK);
-	ex_meta("binding", "dadd binary of the same build, all 911,280 days (bizda: the 650,916 business days) on stdin per (calendar, duration[, -f]) "
+	ex_meta("ord", "ordered coordinate of a failure class (lo/hi in findings) = day ordinal rd of the TARGET state (0 = 1601-01-01; day count - 1); binding classes: rd of the input line");
+	ex_meta("binding", "dadd binary of the same build, all 911,280 days (bizda: the Monday-Friday days) on stdin per (calendar, duration[, -f]) "
 		"entry, byte-compared with the library-level observation");
 
 	/* slices: one per year */
-	for (int y = RC_MIN_YEAR; y <= RC_MAX_YEAR && !ex_expired(); y++) {
+	for (int y = RC_MIN_YEAR; y <= RC_MAX_YEAR && !ex_expired_now(); y++) {
 		if (!ex_mine((uint64_t)(y - RC_MIN_YEAR))) {
 			continue;
 		}
 		memo_reset(rc_yearstart[y]);
-		for (int rd = rc_yearstart[y]; rd < rc_yearstart[y + 1] && !ex_expired(); rd++) {
+		for (int rd = rc_yearstart[y]; rd < rc_yearstart[y + 1] && !ex_expired_now(); rd++) {
 			const struct rc_day *p = rc_get(rd);
 			int seam = seam_day(p);
 			++*c_states;
@@ -531,7 +532,7 @@ main(int argc, char *argv[])
 	}
 	{
 		int nb = ex.thorough ? NBIND : NBIND_QUICK;
-		for (int k = 0; k < nb && !ex_expired(); k++) {
+		for (int k = 0; k < nb && !ex_expired_now(); k++) {
 			if (ex_mine((uint64_t)k)) {
 				do_binding(k);
 			}
